@@ -87,8 +87,8 @@ def build_plan(choice: Choice, tier: str, family: str):
     """family: 'single' (C01, C02), 'multi' (C03), 'lifecycle' (C04)"""
     p = {"family": family}
     d = choice.draw
-    # an eighth of the quick runs use the larger sizes of the thorough tier (more workers, calls, items)
-    thorough = tier == "thorough" or d(8, "large.sizes") == 7
+    # a quarter of the quick runs use the larger sizes of the thorough tier (more workers, calls, items)
+    thorough = tier == "thorough" or d(4, "large.sizes") == 3
     if family == "single":
         p["factory"] = d(3, "factory") == 2
     else:
